@@ -119,6 +119,23 @@ pub fn gen_buckets(t: &mut Tape) -> Job {
     Job { origin: "buckets".into(), files: vec![("main.asm".into(), src.into_bytes())], root: "main.asm".into(), generated: true }
 }
 
+/// v2: a program that reads data files through the inclusion functions; the file NAMES are always the same, the
+/// contents come from the tape (so that two jobs of one history differ only in what the files hold; one content in
+/// eight holds a character that is no digit)
+pub fn gen_incfile(t: &mut Tape) -> Job {
+    let hex: String = (0..2 * t.urange(1, 6)).map(|_| *t.pick(&['0', '1', '2', '7', '9', 'a', 'c', 'f', 'F'])).collect();
+    let hex = if t.chance(1, 8) { format!("{}zz", hex) } else { hex };
+    let bin: String = (0..8 * t.urange(1, 3)).map(|_| if t.flip() { '1' } else { '0' }).collect();
+    let raw: Vec<u8> = (0..t.urange(1, 5)).map(|_| t.draw(256) as u8).collect();
+    let src = "#d8 0xa0\n#d inchexstr(\"t.txt\")\nafter_t:\n#d incbinstr(\"b.txt\")\nafter_b:\n#d incbin(\"d.bin\")\nafter_d:\n#d8 after_t, after_b, after_d\nk = inchexstr(\"t.txt\") + 1\n";
+    Job {
+        origin: "incfile".into(),
+        files: vec![("main.asm".into(), src.as_bytes().to_vec()), ("t.txt".into(), hex.into_bytes()), ("b.txt".into(), bin.into_bytes()), ("d.bin".into(), raw)],
+        root: "main.asm".into(),
+        generated: true,
+    }
+}
+
 pub const TWIN_SET: &[&str] = &["symbols", "mesen-mlb", "addrspan", "annotated"];
 
 fn first_difference(a: &str, b: &str) -> String {
@@ -158,8 +175,12 @@ impl Property for C10 {
     fn run(&self, t: &mut Tape, ctx: &mut CaseCtx) -> Verdict {
         let twins = crate::engine::gen_version() >= 2 && t.chance(1, 6);
         let buckets = crate::engine::gen_version() >= 2 && !twins && t.chance(1, 8);
+        let incfile = crate::engine::gen_version() >= 2 && !twins && !buckets && t.chance(1, 8);
         let job = if twins {
             gen_twins(t)
+        } else if incfile {
+            ctx.label("incfile");
+            gen_incfile(t)
         } else if buckets {
             ctx.label("buckets");
             gen_buckets(t)
@@ -190,7 +211,7 @@ impl Property for C10 {
         let text = job.files.iter().find(|f| f.0 == job.root).map(|f| String::from_utf8_lossy(&f.1).to_string()).unwrap_or_default();
         let nsym = text.lines().filter(|l| l.trim_end().ends_with(':') || l.contains(" = ")).count();
         let ndiag = r0.matches("error:").count();
-        ctx.nontrivial = nsym >= 8 || ndiag >= 2 || set.len() == 1 || twins || buckets;
+        ctx.nontrivial = nsym >= 8 || ndiag >= 2 || set.len() == 1 || twins || buckets || incfile;
         ctx.label(if r0.starts_with("ok=true") { "succeeds" } else { "fails" });
         ctx.render(|| json!({"job": job_json(&job), "args": args}));
         let fail = |ctx: &mut CaseCtx, how: &str, a: &str, b: &str| -> Verdict {
@@ -207,7 +228,8 @@ impl Property for C10 {
         // after a history of other jobs
         let nh = t.urange(1, 3);
         for _ in 0..nh {
-            let other = gen_job(t);
+            // (for a job that reads data files: the same program over other file contents under the same names)
+            let other = if incfile { gen_incfile(t) } else { gen_job(t) };
             let oa = args_for(&other, FORMAT_SETS[t.below(3)], &[]);
             let _ = record(&other, &oa);
         }
